@@ -159,12 +159,17 @@ def build_circuit(desc, bases=None):
         regs = [QuantumRegister(desc["nq"], "q")] if desc["nq"] else []
     cregs = [ClassicalRegister(s, n) for n, s in desc.get("cregs", [])]
     qc = QuantumCircuit(*regs, *cregs)
+    shared = {}
     for ins in desc["instrs"]:
         name = ins["name"]
         qs = [qc.qubits[q] for q in ins["qubits"]]
         cs = [qc.clbits[c] for c in ins.get("clbits", [])]
-        if name == "qpd_2q":
+        if name == "qpd_2q" and ins.get("obj") is not None and ("o", ins["obj"]) in shared:
+            op = shared[("o", ins["obj"])]   # the very same gate object appended at several places
+        elif name == "qpd_2q":
             op = TwoQubitQPDGate(bases[ins["basis"]], basis_id=ins.get("basis_id"), label=ins.get("label"))
+            if ins.get("obj") is not None:
+                shared[("o", ins["obj"])] = op
         elif name == "qpd_1q":
             op = SingleQubitQPDGate(bases[ins["basis"]], ins["half"], basis_id=ins.get("basis_id"), label=ins.get("label"))
         elif name == "barrier":
